@@ -27,7 +27,8 @@ func poly(x []float64) float64 {
 type evalLog struct{ pts []string }
 
 func (l *evalLog) add(x ...[]float64) {
-	l.pts = append(l.pts, fmt.Sprint(x))
+	p := fmt.Sprint(x)
+	vlib.Atomically(func() { l.pts = append(l.pts, p) })
 }
 
 func (l *evalLog) key() string {
@@ -78,7 +79,7 @@ func genFD(g *vlib.G) {
 							clog = evalLog{}
 							x := append([]float64(nil), x0...)
 							got = fd.Gradient(nil, func(x []float64) float64 {
-								vsched.Point("f")
+								point("f")
 								clog.add(x)
 								return poly(x)
 							}, x, set(true))
@@ -109,7 +110,7 @@ func genFD(g *vlib.G) {
 								clog = evalLog{}
 								got = mat.NewSymDense(dim, nil)
 								fd.Hessian(got, func(x []float64) float64 {
-									vsched.Point("f")
+									point("f")
 									clog.add(x)
 									return poly(x)
 								}, append([]float64(nil), x0...), set(true))
@@ -146,7 +147,7 @@ func genFD(g *vlib.G) {
 							body := func() {
 								clog = evalLog{}
 								got = fd.CrossLaplacian(func(x, y []float64) float64 {
-									vsched.Point("f")
+									point("f")
 									clog.add(x, y)
 									return f2(x, y)
 								}, append([]float64(nil), x0...), append([]float64(nil), y0...), set2(true))
@@ -186,8 +187,8 @@ func genFD(g *vlib.G) {
 								ncon = 0
 								got = mat.NewDense(m, dim, nil)
 								fd.Jacobian(got, func(y, x []float64) {
-									vsched.Point("f")
-									ncon++
+									point("f")
+									vlib.Atomically(func() { ncon++ })
 									fn(y, x)
 								}, append([]float64(nil), x0...), &fd.JacobianSettings{Formula: fm.f, Step: 1, OriginValue: origin, Concurrent: true})
 							}
@@ -226,7 +227,7 @@ func genFD(g *vlib.G) {
 						body := func() {
 							clog = evalLog{}
 							got = fd.Laplacian(func(x []float64) float64 {
-								vsched.Point("f")
+								point("f")
 								clog.add(x)
 								return poly(x)
 							}, append([]float64(nil), x0...), set(true))
@@ -261,8 +262,8 @@ func genFD(g *vlib.G) {
 					body := func() {
 						ncon = 0
 						got = fd.Derivative(func(x float64) float64 {
-							vsched.Point("f")
-							ncon++
+							point("f")
+							vlib.Atomically(func() { ncon++ })
 							return f1(x)
 						}, 2, set(true))
 					}
